@@ -238,6 +238,9 @@ func (r *ref) eval(n *node, env *frame) val {
 		case "t":
 			return tval{}
 		}
+		if strings.HasPrefix(n.s, ":") {
+			return symv(n.s) // a keyword evaluates to itself
+		}
 		f, i := env.lookup(n.s)
 		if f == nil {
 			r.fail("unbound variable %s", n.s)
